@@ -1292,7 +1292,12 @@ fn get_full_sync_opps(dbs: &Arc<Databases>) -> Vec<String> {
             };
             for (key, value) in &map_values {
                 if key != TOKEN_KEY && key != CONNECTIONS_KEY {
-                    opps_vec.push(format!("replicate {} {} {}", db_name, key, value));
+                    if value.state == ValueStatus::Deleted {
+                        // A removed key is still in memory as a tombstone until the next snapshot
+                        opps_vec.push(format!("replicate-remove {} {}", db_name, key));
+                    } else {
+                        opps_vec.push(format!("replicate {} {} {}", db_name, key, value));
+                    }
                 }
             }
 
